@@ -129,3 +129,37 @@ PROPS['C02'] = dict(
     assumptions=COMMON_ASSUME,
     pending_theorems=[],
 )
+
+PROPS['C12'] = dict(
+    level='translation_validation',
+    module='SlotVerif.Props.C12',
+    suites=[dict(name='ord', variant='default', comparator='meta', shrink=False,
+                 quick=dict(count=500, set={'variants': 5}), thorough=dict(count=10000, set={'variants': 11})),
+            dict(name='ord', variant='checks', comparator='meta', shrink=False,
+                 quick=dict(count=200, set={'variants': 5}), thorough=dict(count=3000, set={'variants': 11}))],
+    rule='corr.order: each generated history (same generator and streams as C01/C02) is run in its original order and under 5 '
+         '(thorough: 11) random re-orderings: insertion steps permuted, union steps permuted, each union flipped with probability '
+         '1/2, unions either after all insertions or interleaved as early as both sides exist. Final observables (eq matrix over the '
+         'tracked terms in original numbering, per-term slot count and symmetry count, live class count) must be identical across '
+         'orders; a panic in one order only is also a difference. non-trivial = history with >= 3 unions of which two touch a '
+         'common term; distinct = by hash of the case line',
+    trusted_base=EG_TRUST,
+    assumptions=COMMON_ASSUME + ['the spec side is order-independent by theorem; the implementation side is compared order against order'],
+)
+
+PROPS['C11'] = dict(
+    level='translation_validation',
+    module='SlotVerif.Props.C11',
+    suites=[dict(name='ren', variant='default', comparator='meta', shrink=False,
+                 quick=dict(count=600), thorough=dict(count=15000)),
+            dict(name='ren', variant='checks', comparator='meta', shrink=False,
+                 quick=dict(count=200), thorough=dict(count=4000))],
+    rule='corr.rename: each generated history is run under the identity naming and under 3 of 5 renamings of its whole slot '
+         'alphabet (bound and free names): numeric ascending, numeric reversed, named in reversed interning order, f<n> names above '
+         'the fresh counter, numeric/named mixed and shuffled. Compared across runs: eq matrix, live class count, per-term slot and '
+         'symmetry counts, and the non-fresh slots of every returned invocation mapped back through the renaming. '
+         'non-trivial = the renaming changes the relative order of at least two names; distinct = by hash of the case line',
+    trusted_base=EG_TRUST,
+    assumptions=COMMON_ASSUME + ['analysis data and extraction cost under renaming are covered by C14/C06 runs, not here',
+                                 'rewrite iterations under renaming are not yet part of this suite'],
+)
